@@ -89,6 +89,52 @@ def check_c16(prog, rep, tier, cfg):
     from engine import AliasReport
     c17a(prog, AliasReport(rep, [("C17.a", r".", "C16.h")]))
     c17b(prog, AliasReport(rep, [("C17.b", r".", "C16.h")]))
+    c16i(prog, rep)
+
+
+def partial_writes(prog, crates=("pasfmt",)):
+    """call sites of `std::io::Write::write` — the one method of the trait that may accept only part of the buffer"""
+    out = []
+    for b in prog.bodies.values():
+        if not any(b.crate.startswith(c) for c in crates):
+            continue
+        for c in b.calls():
+            if (c.callee or "") == "std::io::Write::write":
+                out.append(c)
+    return out
+
+
+def unlocked_stdout_handles(prog, crates=("pasfmt",)):
+    """`std::io::stdout()` results that are used for anything but `.lock()`: writes through an unlocked handle (also through a BufWriter /
+    LineWriter around it) take and release the stdout lock per write call"""
+    out = []
+    for b in prog.bodies.values():
+        if not any(b.crate.startswith(c) for c in crates):
+            continue
+        for c in b.calls():
+            if (c.callee or "") not in ("std::io::stdout", "std::io::stdio::stdout"):
+                continue
+            users = call_result_users(b, c)
+            if not users or any((u.callee or "").split("::")[-1] != "lock" for u in users):
+                out.append(c)
+    return out
+
+
+def c16i(prog, rep):
+    """C16.i — what a mode prints / writes is what the formatter produced, completely and in one piece.  (1) No output is written with
+    `Write::write` (which may accept only a prefix: std's line-buffered stdout takes the text up to the last line break plus what
+    fits its buffer); the complete-write methods are write_all / write_fmt / print!.  (2) A handle to stdout is only used locked:
+    the per-file blocks of stdout mode are written by parallel workers, a BufWriter around an unlocked handle splits a block of
+    more than its capacity into several writes, between which another worker's block can land (C18: batch = alone)."""
+    R = "C16.i"
+    pw = partial_writes(prog)
+    rep.check(not pw, R, "no-partial-write", "output is written with Write::write, which may accept only part of the buffer (the rest is silently dropped): %s" % [short(c.body.npath) for c in pw[:3]],
+              where=pw[0].where() if pw else None, instance={"partial_write_sites": len(pw)})
+    ul = unlocked_stdout_handles(prog)
+    rep.check(not ul, R, "stdout-only-locked", "a handle to stdout is used without `.lock()` (%s): every write call takes the lock on its own, so the blocks that parallel workers print for their "
+              "files can interleave" % [short(c.body.npath) for c in ul[:3]], where=ul[0].where() if ul else None, instance={"unlocked_handles": len(ul)})
+    so = [c for b in prog.bodies.values() if b.crate.startswith("pasfmt") for c in b.calls() if (c.callee or "") in ("std::io::stdout", "std::io::stdio::stdout")]
+    rep.analysed["stdout_handles"] = len(so)
 
 
 def effect_sites(prog):
@@ -847,6 +893,9 @@ PIPELINE_TYPES_MIN = 10
 
 
 def check_c18(prog, rep, tier, cfg):
+    # C18.i — the block a worker prints for its file reaches stdout in one piece (shared with C16.i)
+    from engine import AliasReport as _AR
+    c16i(prog, _AR(rep, [("C16.i", r"stdout-only-locked", "C18.i")]))
     c18a(prog, rep)
     c18b(prog, rep)
     c18c(prog, rep)
